@@ -19,7 +19,12 @@ let fill (boxes : string) : spec_store =
     | [mb; ""] -> let mb = str_of_field mb in exec (exec st (Add (mb, z_of_int 0, N0, N0))) (Purge mb)
     | [mb; ages] ->
         let mb = str_of_field mb in
-        List.fold_left (fun st a -> exec st (Add (mb, z_of_int (- (int_of_string a)), N0, N0))) st (sp ',' ages)
+        (* "<age>*<n>": n messages of that age *)
+        List.fold_left (fun st a ->
+          let (a, n) = (match sp '*' a with [a; n] -> (a, int_of_string n) | _ -> (a, 1)) in
+          let st = ref st in
+          for _ = 1 to n do st := exec !st (Add (mb, z_of_int (- (int_of_string a)), N0, N0)) done;
+          !st) st (sp ',' ages)
     | _ -> failwith "bad box") spec_init (sp ';' boxes)
 
 let parse_op (f : string list) : op =
